@@ -2,7 +2,9 @@ package props
 
 import (
 	"fmt"
+	"net"
 	"os"
+	"os/exec"
 	"path/filepath"
 	"strings"
 	"sync"
@@ -31,7 +33,7 @@ var c03Kinds = []string{
 	"hook:serve.begin", "hook:serve.listener", "hook:serve.handshake.printed", "hook:serve.serving",
 	"line-prefix", "idle-kill", "in-call:exit", "in-call:kill9", "in-stream",
 	"broker:plugin-accept", "broker:plugin-accept-sent", "broker:plugin-dial", "broker:after-nextid", "broker:knock",
-	"stdio-chunk", "timed-kill",
+	"stdio-chunk", "timed-kill", "reattach-kill",
 }
 
 var c03Ops = []string{"start", "client", "dispense", "ping", "call", "stream", "broker_dial", "broker_accept", "write"}
@@ -46,6 +48,8 @@ func c03Valid(c *c03Case) bool {
 		return c.Proto == "grpc"
 	case "broker:knock":
 		return c.Proto == "grpcmux"
+	case "reattach-kill":
+		return c.Proto != "grpcmux" // multiplexing does not support reattach
 	case "timed-kill":
 		if c.Op == "stream" && c.Proto == "netrpc" {
 			return false
@@ -60,6 +64,8 @@ func c03Gen(t *rapid.T) any {
 		c.Kind = oneOf(t, "kind", c03Kinds)
 		if pct(t, "timed", 25) {
 			c.Kind = "timed-kill"
+		} else if pct(t, "reattach", 8) {
+			c.Kind = "reattach-kill"
 		}
 		switch c.Kind {
 		case "line-prefix":
@@ -196,6 +202,10 @@ func c03Run(ci any) (out Outcome) {
 		}()
 	}
 
+	if c.Kind == "reattach-kill" {
+		c03ReattachKill(&out, c, cl, cc.Cmd, desc)
+		return
+	}
 	var h Handle
 	var cp plugin.ClientProtocol
 	var gctxDone <-chan struct{}
@@ -466,6 +476,110 @@ func c03Run(ci any) (out Outcome) {
 		}
 	}
 	return
+}
+
+// c03ReattachKill: the plugin dies while a second, reattached client has not connected yet. That
+// client notices the death only through its once-per-second pid poll, so for up to a second its
+// Client / Dispense / broker calls run against a dead plugin that it still believes alive.
+func c03ReattachKill(out *Outcome, c *c03Case, first *plugin.Client, cmd *exec.Cmd, desc string) {
+	const opBound = 20 * time.Second
+	var serr error
+	if !out.bounded("Start", 10*time.Second, func() { _, serr = first.Start() }) {
+		return
+	}
+	if serr != nil {
+		out.violate("could not start the plugin: %v; %s", firstLine(serr), desc)
+		return
+	}
+	rc := first.ReattachConfig()
+	if rc == nil {
+		out.violate("ReattachConfig() is nil after Start; %s", desc)
+		return
+	}
+	set := SetSpec{Kind: "dual"}
+	cc2 := HostCfg{LegacyVersion: 1, Legacy: &set, Allowed: []string{"netrpc", "grpc"}}.clientConfig()
+	cc2.Reattach = rc
+	second := plugin.NewClient(cc2)
+	defer killBounded(second, 20*time.Second)
+	if _, err := second.Start(); err != nil {
+		out.violate("reattach to a live plugin failed: %v; %s", firstLine(err), desc)
+		return
+	}
+	syscall.Kill(cmd.Process.Pid, syscall.SIGKILL)
+	waitPidDead(cmd.Process.Pid, 3*time.Second)
+	out.NonTrivial = true
+	// the reattached client has not noticed yet
+	var cp plugin.ClientProtocol
+	var cerr error
+	if !out.bounded("Client() of the reattached client right after the plugin died", opBound, func() { cp, cerr = second.Client() }) {
+		return
+	}
+	if cerr == nil && cp != nil {
+		var raw interface{}
+		var derr error
+		if !out.bounded("Dispense right after the plugin died", opBound, func() { raw, derr = cp.Dispense("p") }) {
+			return
+		}
+		if derr == nil {
+			h := raw.(Handle)
+			var err error
+			if !out.bounded("a call right after the plugin died", opBound, func() { _, err = h.DoT(Cmd{Op: "tag"}, 10*time.Second) }) {
+				return
+			}
+			if err == nil {
+				out.violate("a call on a plugin dispensed after its process died succeeded; %s", desc)
+				return
+			}
+			// broker operations on the host side return in bounded time too
+			switch hh := h.(type) {
+			case *grpcHandle:
+				if !out.bounded("broker Accept on the host after the plugin died", opBound, func() {
+					if ln, err := hh.broker.Accept(hh.broker.NextId()); err == nil {
+						ln.Close()
+					}
+				}) {
+					return
+				}
+				var derr2 error
+				if !out.bounded("broker Dial on the host after the plugin died", opBound, func() { _, derr2 = c14HostDial(h, hh.broker.NextId()+50) }) {
+					return
+				}
+				if derr2 == nil {
+					out.violate("a brokered Dial succeeded after the plugin died; %s", desc)
+					return
+				}
+			case *rpcHandle:
+				var aerr error
+				if !out.bounded("broker Accept on the host after the plugin died", opBound, func() {
+					var conn net.Conn
+					if conn, aerr = hh.mux.Accept(hh.mux.NextId() + 50); aerr == nil {
+						conn.Close()
+					}
+				}) {
+					return
+				}
+				if aerr == nil {
+					out.violate("a brokered Accept succeeded after the plugin died; %s", desc)
+					return
+				}
+			}
+		}
+		var perr error
+		if !out.bounded("Ping right after the plugin died", opBound, func() { perr = cp.Ping() }) {
+			return
+		}
+		if perr == nil {
+			out.violate("Ping succeeded after the plugin died; %s", desc)
+			return
+		}
+	}
+	if !waitFor(6*time.Second, second.Exited) {
+		out.violate("the reattached client's Exited() is still false 6 s after the plugin died; %s", desc)
+		return
+	}
+	if el, ok := killBounded(second, 10*time.Second); !ok {
+		out.Slow = fmt.Sprintf("Kill of the reattached client did not return within %v", el)
+	}
 }
 
 // c03After: once the plugin is dead every later call fails in bounded time and the client reports the exit.
